@@ -3,6 +3,7 @@
 From Coq Require Import ZArith NArith Bool List.
 From SV.Num Require Import Dec IntParse NumGrammar Range IntPrint RangeProofs IntParseProofs NumGrammarProofs
   SkipNumberProofs IntPrintProofs IntPrintExact FloatCheck FloatSpec FloatCheckProofs FloatCheckSound
+  FloatInterval ShortestSound FloatComplete
   FloatFmt FloatFmtProofs WriteDecDenotes VNumber Api Refuted.
 Import ListNotations.
 Open Scope Z_scope.
@@ -152,16 +153,44 @@ Theorem C19_nearest_check_sound : forall f lit inf bits, wf_fmt f ->
 Proof. exact nearest_check_sound. Qed.
 Print Assumptions C19_nearest_check_sound.
 
-(* printing direction, partial: a (bits, sig, exp) triple accepted by shortest_roundtrip_check parses back to the
-   same float.  The minimality clauses of the checker (no shorter decimal in the rounding interval, closest of
-   that length) are executable tests of the two enclosing shorter decimals and the two neighbours; their
-   completeness w.r.t. "for all decimals" is not proved (named gap: shortest_check_minimal). *)
-Theorem C19_shortest_check_roundtrip_partial : forall f abits sig exp, wf_fmt f -> in_window sig exp ->
+(* printing direction, full statement: if shortest_roundtrip_check accepts (bits, sig, exp) then bits is a finite
+   non-zero float k, sig*10^exp converts back to k (RTd: round-to-nearest-even of the exact decimal, IEEE overflow
+   rule), no decimal with fewer significant digits converts to k, and among the decimals with the same number of
+   digits that convert to k none is nearer to k.  Quantified over ALL decimals sig' * 10^exp'. *)
+Theorem C19_shortest_check_sound : forall f abits sig exp, wf_fmt f ->
   shortest_check f abits sig exp = true ->
-  exists k, k_of_bits f abits = Some k /\ 0 < k /\ 0 < sig /\
-            let '(N, D) := scaled_dec f sig exp in rounds_to_spec f N D (RFin k).
-Proof. exact shortest_check_roundtrip. Qed.
-Print Assumptions C19_shortest_check_roundtrip_partial.
+  exists k, k_of_bits f abits = Some k /\ 0 < k /\ 0 < sig /\ sig mod 10 <> 0 /\
+    RTd f k sig exp /\
+    (forall sig' exp', 0 < sig' -> RTd f k sig' exp' -> ndig sig <= ndig sig') /\
+    (forall sig' exp', 0 < sig' -> ndig sig' = ndig sig -> RTd f k sig' exp' -> closer f k sig exp sig' exp').
+Proof. exact shortest_check_sound. Qed.
+Print Assumptions C19_shortest_check_sound.
+
+(* the rounding specification is a function: a real has at most one round-to-nearest-even image *)
+Theorem C19_is_rne_unique : forall f N D k1 k2, 2 <= prec f -> 0 < D -> is_rne f N D k1 -> is_rne f N D k2 -> k1 = k2.
+Proof. intros f N D k1 k2 H. apply is_rne_unique. exact H. Qed.
+Print Assumptions C19_is_rne_unique.
+
+(* completeness: the rounding function never gives up (its self-check cannot fail), and the parsing-direction
+   checker accepts every correctly rounded (literal, bits) pair: it is a decision procedure for the specification
+   inside the exponent window.  (Completeness of shortest_check - it accepts every shortest closest decimal - is
+   not proved; named gap shortest_check_complete.) *)
+Theorem C19_rne_frac_complete : forall f num den, wf_fmt f -> 0 < num -> 0 < den -> rne_frac f num den <> RBad.
+Proof. exact rne_frac_complete. Qed.
+Print Assumptions C19_rne_frac_complete.
+
+Theorem C19_nearest_check_complete : forall f lit inf bits, wf_fmt f ->
+  let v := lit_decode lit in
+  in_window (lv_man v) (lv_exp v) ->
+  (let '(N, D) := scaled_dec f (lv_man v) (lv_exp v) in
+   match inf return Prop with
+   | true => rounds_to_spec f N D RInf
+   | false => exists k b, bits = b + (if lv_neg v then sign_bit f else 0) /\ 0 <= b /\
+                          k_of_bits f b = Some k /\ rounds_to_spec f N D (RFin k)
+   end) ->
+  nearest_check f lit inf bits = true.
+Proof. exact nearest_check_complete. Qed.
+Print Assumptions C19_nearest_check_complete.
 
 Example C19_checker_nonvacuous :
   wf_fmt f64 /\ wf_fmt f32 /\ in_window 1 (-1) /\
